@@ -766,6 +766,74 @@ def r04_11(facts, res):
         raise BrokenCheck("R04-11: %d leaf pretty printers (floor 3)" % st["instances"])
 
 
+def r04_12(facts, res, rule="R04-12"):
+    """Inside the loop in which a printer writes the members of one of its collections, a property that the member has itself
+    (prefix, local name, value ..) is read from the member, not from the container: `self.prefix` in the loop over `self.atts`
+    prints the element's prefix in front of every declared attribute name."""
+    st = res.rule(rule, instances=0)
+    for ty, m, f in printers(facts):
+        for n in walk(f["body"]):
+            if not (n.get("k") == "Match" and n.get("src") == "ForLoop"):
+                continue
+            over = [x for x in walk(n["scrut"]) if x.get("k") == "Field" and x["a"].get("k") == "Path" and x["a"].get("name") == "self"]
+            if not over:
+                continue
+            # the loop variable and the struct it refers to
+            item_ty = None
+            for q in walk(n["arms"]):
+                if isinstance(q, dict) and q.get("p") == "Bind" and q.get("ty") and "iter" not in str(q.get("name")):
+                    t = str(q["ty"]).replace("&", "").strip()
+                    for pth, a in facts.adts.items():
+                        if a.get("kind") == "struct" and a["crate"] == "xml_info" and (t == pth or t == pth.split("::")[-1]):
+                            item_ty = a
+                    if item_ty:
+                        break
+            if item_ty is None:
+                continue
+            item_fields = {fl["name"] for fl in item_ty["variants"][0]["fields"]}
+            st["instances"] += 1
+            wrong = sorted({x["name"] for body in [a["body"] for inner in walk(n["arms"]) if inner.get("k") == "Match" and inner.get("src") == "ForLoop"
+                                                    for a in inner["arms"]]
+                            for x in walk(body) if x.get("k") == "Field" and x["a"].get("k") == "Path" and x["a"].get("name") == "self"
+                            and x["name"] in item_fields and x["name"] != over[0]["name"]})
+            res.oblige(1, not wrong)
+            if wrong:
+                res.add(Finding(rule, "%s::%s|%s" % (ty, m, over[0]["name"]), "%s: in the loop over `self.%s` the printer reads `self.%s`, a property every "
+                                "member (%s) has itself" % (f["path"], over[0]["name"], ", self.".join(wrong), item_ty["path"].split("::")[-1]),
+                                f["file"], n.get("ln"), {}))
+    if st["instances"] < 1:
+        raise BrokenCheck("%s: no printer loop over a collection of structs found" % rule)
+
+
+def r04_13(facts, res, rule="R04-13"):
+    """The standalone document declaration is printed whenever the document has one, with the value it has: Some(false) is
+    `standalone="no"`, not nothing (the re-parsed document has no declaration, which is a different [document] property)."""
+    import enumflow
+    st = res.rule(rule, instances=1)
+    f = facts.fn("xml_info::<XmlDocument as std::fmt::Display>::fmt")
+    # which of None / Some(true) / Some(false) reach a write that mentions `standalone`
+    writes = [n for n in walk(f["body"]) if n.get("k") in ("Call", "MethodCall") and str(n.get("mac", "")).rstrip("!") in ("write", "writeln")
+              and "standalone" in str(n.get("snip", ""))]
+    lits = {str(m.get("v")) for m in walk(f["body"]) if m.get("k") == "Lit" and m.get("t") == "str"} | {str(n.get("snip", "")) for n in writes}
+    has_yes = any("yes" in l for l in lits)
+    has_no = any(re.search(r'(^|[^a-z])no($|[^a-z])', l) for l in lits)
+    # the guard of the write must not pick one value: `self.standalone == Some(true)`, `if let Some(true) = ..`, `matches!(.., Some(true))`
+    picks = []
+    for n in walk(f["body"]):
+        if n.get("k") == "Binary" and n.get("op") in ("==", "!=") and any(x.get("k") == "Field" and x.get("name") == "standalone" for x in walk(n)):
+            if any(x.get("k") == "Lit" and x.get("t") == "bool" for x in walk(n)):
+                picks.append("comparison with a constant")
+        if (n.get("k") == "Let" or n.get("s") == "Let") and any(x.get("k") == "Field" and x.get("name") == "standalone" for x in walk(n.get("init", {}))):
+            if any(q.get("p") == "Expr" and q["e"].get("t") == "bool" for q in walk(n.get("pat", {}))):
+                picks.append("pattern with a constant")
+    ok = bool(writes) and has_yes and has_no and not picks
+    res.oblige(1, ok)
+    if not ok:
+        res.add(Finding(rule, "XmlDocument::fmt|standalone", "%s: the standalone declaration is not printed for both of its values (yes %s, no %s%s)"
+                        % (f["path"], "found" if has_yes else "missing", "found" if has_no else "missing",
+                           "; the test is a " + picks[0] if picks else ""), f["file"], f["line"], {}))
+
+
 def run(facts, tier):
     res = Result("C04")
     res.explanation = (
@@ -814,6 +882,8 @@ def run(facts, tier):
     r04_9(facts, res)
     r04_10(facts, res)
     r04_11(facts, res)
+    r04_12(facts, res)
+    r04_13(facts, res)
     # ---- R04-3
     st3 = res.rule("R04-3", instances=0)
     for ty in ITEM_TYPES:
